@@ -456,7 +456,9 @@ type reqKind struct {
 }
 
 // prevReq is the request object the caller handed to the client last in the current execution.
+// It is kept in the sequential histories only (trackPrev): concurrent callers have no "last" request.
 var prevReq *http.Request
+var trackPrev bool
 
 // the last kind asks registry A for repository "rd", which A answers with a redirect to registry B
 var reqKinds = []reqKind{{"a.example", "r1", false}, {"a.example", "r2", false}, {"a.example", "", false}, {"b.example", "r1", false}, {"b.example", "r2", false}, {"b.example", "", false}, {"a.example", "rd", false},
@@ -502,7 +504,9 @@ func doReq(ctx context.Context, c *auth.Client, id string, k reqKind) (*http.Res
 		u.Host, u.Path = k.host, path
 		req.URL, req.Host = &u, k.host
 	}
-	prevReq = req
+	if trackPrev {
+		prevReq = req
+	}
 	req.Header.Set("X-Verif-Req", id)
 	req.Header.Set("X-Verif-Hint", hint) // read by the registry double only: the scope set the caller declared
 	return c.Do(req)
@@ -540,7 +544,7 @@ func seq(c *driver.Ctx, ma, mb, cache string, depth int) (func(), func(*vs.Resul
 		form := vs.Choose(3, vs.KInput, "scopeform")
 		change := vs.Choose(3, vs.KInput, "schemechange") // A switches to the next mode after request 0 / 1 / never(0)
 		hostB = []string{"b.example", "a.example:8443", "sub.a.example"}[vs.Choose(3, vs.KInput, "hostB")]
-		prevReq = nil
+		prevReq, trackPrev = nil, true
 		w = newWorld(ma, mb, form)
 		cl := newClient(w, cache)
 		hist = append(hist, fmt.Sprintf("scopeform=%d change=%d registry B = %s", form, change, hostB))
@@ -770,6 +774,7 @@ func conc(c *driver.Ctx, sc cscen) (func(), func(*vs.Result) *driver.Fail) {
 	}
 	results := make([]result, len(sc.reqs))
 	body := func() {
+		trackPrev = false
 		done := make(chan int, len(sc.reqs))
 		ctx0, cancel0 := context.WithCancel(context.Background())
 		if sc.cancel {
